@@ -120,8 +120,11 @@ def ensure(flavour="plain", root=None):
              and os.path.isdir(os.path.join(BUILD_ROOT, d))),
             key=lambda d: os.path.getmtime(os.path.join(BUILD_ROOT, d)))
         for d in olds[:-3]:
-            if os.path.join(BUILD_ROOT, d) != dest:
-                shutil.rmtree(os.path.join(BUILD_ROOT, d), ignore_errors=True)
+            full = os.path.join(BUILD_ROOT, d)
+            # a concurrently running check may still import from an older
+            # build (mutant trees via VERIF_REPO): only drop stale ones
+            if full != dest and time.time() - os.path.getmtime(full) > 5400:
+                shutil.rmtree(full, ignore_errors=True)
     finally:
         fcntl.flock(lock, fcntl.LOCK_UN)
         lock.close()
